@@ -1509,6 +1509,15 @@ func (st *State) evalLocs(e *SExpr, env *specEnv) (out []modEntry) {
 		}
 		return ents
 	}
+	if e.Kind == KCall && e.Args[0].Kind == KIdent && e.Args[0].Name == "allbut" && len(e.Args) == 2 {
+		// allbut(S), S a slice type: everything EXCEPT the elements of the arrays behind slices of
+		// that element type that exist when the frame is entered
+		T, _ := st.resolveSpecType(e.Args[1].String(), env)
+		if _, ok := T.Underlying().(*types.Slice); !ok {
+			env.fail("allbut(%s): not a slice type", e.Args[1])
+		}
+		return []modEntry{{kind: "allbut", T: T}}
+	}
 	if e.Kind == KCall && e.Args[0].Kind == KIdent && e.Args[0].Name == "all" && len(e.Args) == 2 && e.Args[1].Kind == KSel {
 		// all(T.f): field f of every object of struct type T
 		T, _ := st.resolveSpecType(e.Args[1].Args[0].String(), env)
